@@ -3,7 +3,7 @@
 // C18 exploration (NOT a proof, NOT exhaustive): the real disk B+tree (src/bplustree/tree.rs) against an ordered map.
 // Deterministic pseudo-random operation sequences (xorshift, seed from VERIF_SEED, default 0) over a skewed key
 // set; after EVERY operation the answer of the operation is compared with the model, and after every 8th
-// operation (and after every reopen) the complete forward scan, a sub-range scan and point lookups of all keys
+// operation (and after every reopen) the complete forward scan, the complete backward scan (cursor seek_last / prev), a sub-range scan and point lookups of all keys
 // are compared.
 //   * bytewise key order: keys of 1..40 bytes from a pool of 48 (shared prefixes, 0x00 / 0xff bytes)
 //   * version key order (TimestampComparator over encoded internal keys): 6 user keys x 5 timestamps, every
@@ -193,6 +193,29 @@ fn bptree_enum_impl(nseq: u64, len: usize, name: &str) {
 							if got != want {
 								let first = (0..got.len().max(want.len())).find(|&i| got.get(i) != want.get(i)).unwrap();
 								bad = Some(format!("step {step}: full scan returns {} entries, the map holds {}; first difference at position {first}: tree has key of {:?} bytes / value of {:?} bytes, map has key of {:?} bytes / value of {:?} bytes{}", got.len(), want.len(), got.get(first).map(|e| e.0.len()), got.get(first).map(|e| e.1.len()), want.get(first).map(|e| e.0.len()), want.get(first).map(|e| e.1.len()), if got.get(first).map(|e| &e.1) == want.get(first).map(|e| &e.1) && got.get(first).map(|e| &e.0) != want.get(first).map(|e| &e.0) { " (same value, different stored key bytes)" } else { "" }));
+							}
+						}
+					}
+					// complete BACKWARD scan through the cursor interface (seek_last, prev ...): the leaf chain's back links
+					if bad.is_none() && want.iter().all(|(k, _)| k.len() >= 16) {
+						use crate::LSMIterator as _;
+						let back = || -> std::result::Result<Vec<(Vec<u8>, Vec<u8>)>, String> {
+							let mut it = tree.internal_iterator();
+							let mut out = Vec::new();
+							let mut ok = it.seek_last().map_err(|e| e.to_string())?;
+							while ok && out.len() <= want.len() + 2 {
+								out.push((it.key().encoded().to_vec(), it.value_encoded().map_err(|e| e.to_string())?.to_vec()));
+								ok = it.prev().map_err(|e| e.to_string())?;
+							}
+							out.reverse();
+							Ok(out)
+						};
+						match back() {
+							Err(e) => bad = Some(format!("step {step}: backward scan failed: {e}")),
+							Ok(got) => {
+								if got != want {
+									bad = Some(format!("step {step}: backward scan (seek_last, prev ...) returns {} entries, the map holds {}", got.len(), want.len()));
+								}
 							}
 						}
 					}
